@@ -49,6 +49,8 @@ for key, p in sorted(best.items()):
     c = cands[0]
     dd = os.path.join(driver.VERIF, "known", prop); os.makedirs(dd, exist_ok=True)
     dst = os.path.join(dd, re.sub(r"[^A-Za-z0-9_.-]+", "_", key)[:110] + ".case")
+    while os.path.exists(dst):  # never overwrite the replay of another record
+        dst = dst[:-5] + "_.case"
     shutil.copy(p, dst)
     line = "fixed: property=%s %s key=%s replay=%s %s\n" % (prop, c[0], key, os.path.relpath(dst, driver.VERIF), c[1][5:])
     open(driver.KNOWN_FILE, "a").write(line)
